@@ -465,6 +465,7 @@ func runC10(p *eng.Prog, r *eng.Report, tier string) {
 	closerTypestate(c, "C10.6")
 	c05DeferWriterAs(c, "C10.6")
 	closerFresh(c, "C10.6")
+	c10ReplyAfterClose(c, "C10.9")
 }
 
 func containsNode(root, n ast.Node) bool {
@@ -695,4 +696,41 @@ func closerFresh(c *cx, id string) {
 		}
 		c.r.Floor(id, "allocations of "+typ, n, 1)
 	}
+}
+
+// c10ReplyAfterClose (C10.9): after a local Close, Serve goes on until the
+// peer closes its stream. What handleInputStream writes on its own account
+// after the handler has returned (the automatic reply to an unanswered IQ and
+// the final flush, both through the deferWriter) fails with
+// ErrOutputStreamClosed then: that error is not returned (it would end Serve
+// with an error and leave the peer's closing tag unread). Every return of an
+// error that comes from such a write is dominated by the test that it is not
+// ErrOutputStreamClosed.
+func c10ReplyAfterClose(c *cx, id string) {
+	f := c.fn(id, "", "handleInputStream")
+	if f == nil {
+		return
+	}
+	g := f.Graph()
+	n := 0
+	for _, rs := range g.Returns {
+		if c.p.Enclosing(rs.Pos()) != f || len(rs.Results) != 1 {
+			continue
+		}
+		pt, _ := g.Where(rs)
+		nrm := f.Norm(rs.Results[0], &pt)
+		var src string
+		switch {
+		case strings.HasPrefix(nrm, "mellium.im/xmlstream.Copy(local:") && strings.Contains(nrm, "<*xmpp.deferWriter>,") && strings.HasSuffix(nrm, "#1"):
+			src = "the automatic reply"
+		case strings.HasPrefix(nrm, "xmpp.deferWriter.Flush["):
+			src = "the final flush"
+		default:
+			continue
+		}
+		n++
+		okd, why := g.DominatedAny(pt, []string{"!errors.Is(" + nrm + ",var:xmpp.ErrOutputStreamClosed)", "!eq(" + nrm + ",var:xmpp.ErrOutputStreamClosed)"})
+		c.r.Check(id, f, "error of "+src+" returned", "G: an error of "+src+" ends Serve only if it is not ErrOutputStreamClosed (after a local Close Serve continues until the peer closes)", rs.Pos(), okd, why)
+	}
+	c.r.Floor(id, "returns of write errors after the handler in handleInputStream", n, 2)
 }
